@@ -293,7 +293,7 @@ def oracle(seed, tier):
                 nontriv += 1
             if got != m[3]:
                 viol.append({"what": "plume: point (%r,%r) depth %r: library %s, statement %s" % (m[0], m[1], m[2], got, m[3]), "world_json": w, "cmd": lines[i]})
-    return {"violations": viol[:20], "summary": {"cases": cases, "violations": len(viol), "nontrivial": nontriv}, "samples": samples}
+    return {"violations": trim_violations(viol, 20), "summary": {"cases": cases, "violations": len(viol), "nontrivial": nontriv}, "samples": samples}
 
 
 def replay(rp):
